@@ -25,25 +25,49 @@ deriving instance DecidableEq for Except
 /-- the store after a successful upgrade: exactly one v10 snapshot, nothing else -/
 def upgraded (m : Meta) (d : D) : US D := { new := some [fin m d] }
 
-/-- v8 store: for every finite sequence of interrupted starts, the next complete start succeeds
-and leaves exactly the newest original snapshot — same id, index, term and database, CRC sidecar
-matching — with every old/temporary directory and the plan file gone. -/
+/-- one interrupted node start: optionally (`true`) preceded by the data check that rqlited makes
+before Store.Open when -auto-restore is given (`store.HasData`, which creates an empty wsnapshots
+directory), then a start cut anywhere -/
+abbrev Event (D : Type) := Bool × StartCut D
+
+/-- the last, uninterrupted node start, with or without the data check before it -/
+def finalStart (e : D) (hd : Bool) (s : US D) : Except String (US D) :=
+  start e (if hd then hasData s else s)
+
+/-- v8 store: for every finite sequence of interrupted starts (each with or without the data check
+before it), the next complete start succeeds and leaves exactly the newest original snapshot —
+same id, index, term and database, CRC sidecar matching — with every old/temporary directory and
+the plan file gone. -/
 theorem upgrade_crash_safe_v8 (e : D) {l8 : List (S8 D)} {m : Meta} {d : D} (h : C8 l8 m d)
-    (cuts : List (StartCut D)) :
-    start e (cuts.foldl (startCut e) { old8 := some l8 }) = .ok (upgraded m d) :=
-  start_inv e h (foldl_startCut_inv e h cuts (.A none false))
+    (evs : List (Event D)) (hd : Bool) :
+    finalStart e hd (evs.foldl (startEvent e) { old8 := some l8 }) = .ok (upgraded m d) := by
+  have hl := foldl_event_lift (coreOK8 e h) evs (Or.inl (.A none false))
+  unfold finalStart
+  cases hd
+  · exact start_lift (coreOK8 e h) hl
+  · exact start_lift (coreOK8 e h) (hasData_lift (coreOK8 e h) hl)
 
 /-- v7 store (two upgrades in a row): the same. `d` is the database inside the newest snapshot's
 state file (`e`, the empty database, when it holds no data). -/
 theorem upgrade_crash_safe_v7 {e : D} {l7 : List (S7 D)} {m : Meta} {d : D} (h : C7 e l7 m d)
-    (cuts : List (StartCut D)) :
-    start e (cuts.foldl (startCut e) { old7 := some l7 }) = .ok (upgraded m d) :=
-  start_inv7 h (foldl_startCut_inv7 h cuts (.P none))
+    (evs : List (Event D)) (hd : Bool) :
+    finalStart e hd (evs.foldl (startEvent e) { old7 := some l7 }) = .ok (upgraded m d) := by
+  have hl := foldl_event_lift (coreOK7 h) evs (Or.inl (.P none))
+  unfold finalStart
+  cases hd
+  · exact start_lift (coreOK7 h) hl
+  · exact start_lift (coreOK7 h) (hasData_lift (coreOK7 h) hl)
 
-/-- a start on an already upgraded store — whatever it holds — changes nothing -/
-theorem upgrade_idempotent (e : D) (l : List (S10 D)) :
-    start e ({ new := some l } : US D) = .ok { new := some l } := by
-  simp [start, u78, u810, u810With]
+/-- a start on an already upgraded store — whatever it holds — changes nothing (an empty
+wsnapshots directory is removed; NewStore creates it again) -/
+theorem upgrade_idempotent (e : D) (l : List (S10 D)) (hl : l ≠ []) :
+    start e ({ new := some l } : US D) = .ok { new := some l } ∧
+    start e ({ new := some [] } : US D) = .ok {} := by
+  constructor
+  · cases l with
+    | nil => exact absurd rfl hl
+    | cons a t => simp [start, u78, u810, u810Core, u810With, rmEmptyNew]
+  · simp [start, u78, u810, u810Core, u810With, rmEmptyNew]
 
 /-! ### "newest"
 `getNewest8Snapshot` / the model's `newest8` choose among COMPLETE entries only (a directory with
@@ -56,15 +80,15 @@ def NewestOfAll (l : List (S8 D)) (m : Meta) : Prop := ∀ x ∈ l, ∀ m', x.mt
 
 /-- the property as written: the upgraded store holds the newest original snapshot -/
 def C08_full (e : D) : Prop :=
-  ∀ (l8 : List (S8 D)) (m : Meta) (cuts : List (StartCut D)),
+  ∀ (l8 : List (S8 D)) (m : Meta) (evs : List (Event D)) (hd : Bool),
     (∃ x ∈ l8, x.mt = some m) → NewestOfAll l8 m →
-    ∃ d, start e (cuts.foldl (startCut e) { old8 := some l8 }) = .ok (upgraded m d)
+    ∃ d, finalStart e hd (evs.foldl (startEvent e) { old8 := some l8 }) = .ok (upgraded m d)
 
 /-- it holds whenever the newest entry is complete … -/
 theorem upgrade_keeps_newest_of_all_v8 (e : D) {l8 : List (S8 D)} {m : Meta} {d : D} (h : C8 l8 m d)
-    (_hn : NewestOfAll l8 m) (cuts : List (StartCut D)) :
-    start e (cuts.foldl (startCut e) { old8 := some l8 }) = .ok (upgraded m d) :=
-  upgrade_crash_safe_v8 e h cuts
+    (_hn : NewestOfAll l8 m) (evs : List (Event D)) (hd : Bool) :
+    finalStart e hd (evs.foldl (startEvent e) { old8 := some l8 }) = .ok (upgraded m d) :=
+  upgrade_crash_safe_v8 e h evs hd
 
 /-- … and not otherwise: when the entry with the newest meta.json has lost its database file, the
 upgrade silently falls back to the newest complete one (no crash involved). -/
@@ -80,10 +104,10 @@ theorem newest_incomplete_fallback_witness :
 theorem C08_full_fails : ¬ C08_full (0 : Nat) := by
   intro h
   obtain ⟨d, hd⟩ := h [{ id := 1, dir := true, mt := some ⟨1, 10, 2⟩, db := some 7 },
-                        { id := 2, dir := true, mt := some ⟨2, 20, 2⟩, db := none }] ⟨2, 20, 2⟩ []
+                        { id := 2, dir := true, mt := some ⟨2, 20, 2⟩, db := none }] ⟨2, 20, 2⟩ [] false
     ⟨{ id := 2, dir := true, mt := some ⟨2, 20, 2⟩, db := none }, by simp, rfl⟩ newest_incomplete_fallback_witness.1
   have := newest_incomplete_fallback_witness.2
-  simp only [List.foldl_nil] at hd
+  simp only [List.foldl_nil, finalStart, Bool.false_eq_true, if_false] at hd
   rw [this] at hd
   simp [upgraded, fin] at hd
 
@@ -122,6 +146,16 @@ theorem resume_before_fix_witness :
     startOld 0 (startCut 0 witnessStore (.in810 .planDone)) = .error "copy-nosrc" ∧
     start 0 witnessCrashed = .ok (upgraded ⟨1, 10, 2⟩ 7) := by decide
 
+/-- The defect repaired by the empty-directory fix, on the code as it was (`startCore`): the data
+check before Store.Open creates an empty wsnapshots; Upgrade8To10 takes "the new directory exists"
+for "already upgraded" and removes the v8 snapshots without upgrading them — also on the resume
+branch, when the check runs before the start that follows a crash inside the plan. -/
+theorem empty_new_dir_before_fix_witness :
+    startCore 0 (hasData witnessStore) = .ok { new := some [] } ∧
+    startCore 0 (hasData (startCut 0 witnessStore (.in810 (.inPlan 3 .none)))) = .ok { new := some [] } ∧
+    start 0 (hasData witnessStore) = .ok (upgraded ⟨1, 10, 2⟩ 7) ∧
+    start 0 (hasData (startCut 0 witnessStore (.in810 (.inPlan 3 .none)))) = .ok (upgraded ⟨1, 10, 2⟩ 7) := by decide
+
 /-! ### tie to the source (regenerated on every run) -/
 
 def opKind : Op8 → String
@@ -130,11 +164,12 @@ def opKind : Op8 → String
 
 /-- Upgrade8To10 adds exactly the model's seven operations in the model's order, straight-line,
 writes the plan before executing it; its resume branch skips the plan when the new directory
-exists; Store.Open runs Upgrade7To8, Upgrade8To10, NewStore in this order. -/
+exists; an empty new directory is removed before either branch looks at it; Store.Open runs Upgrade7To8, Upgrade8To10, NewStore in this order. -/
 theorem upgrade_shape_from_source :
     RqModel.Gen.PlanShapes.upgrade8To10 = planOps.map (fun o => (opKind o, "")) ∧
     RqModel.Gen.PlanShapes.upgradeWriteBeforeExecute = some true ∧
     RqModel.Gen.PlanShapes.upgradeResumeSkipsPlanWhenNewExists = some true ∧
+    RqModel.Gen.PlanShapes.upgradeRemovesEmptyNewFirst = some true ∧
     RqModel.Gen.PlanShapes.openSnapshotCalls = ["Upgrade7To8", "Upgrade8To10", "NewStore"] := by decide
 
 /-! ### non-vacuity -/
@@ -151,8 +186,8 @@ example : C7 0 ([{ id := 1, mt := some ⟨1, 8, 2⟩, st := .missing },
 /-- a v7 store, crash while building rsnapshots.tmp, then crash after five plan operations with a
 truncated CRC sidecar, then crash inside the removal of rsnapshots -/
 example :
-    start 0 ([StartCut.in78 (.building [⟨2, true, none, none⟩]), .in810 (.inPlan 4 .fileTrunc),
-              .in810 (.inPlan 6 (.rmJunk []))].foldl (startCut 0)
+    finalStart 0 true ([(false, StartCut.in78 (.building [⟨2, true, none, none⟩])), (true, .in810 (.inPlan 4 .fileTrunc)),
+              (true, .in810 (.inPlan 6 (.rmJunk [])))].foldl (startEvent 0)
       ({ old7 := some [{ id := 1, mt := some ⟨1, 8, 2⟩, st := .missing },
                        { id := 2, mt := some ⟨2, 18, 2⟩, st := .data 5 }] } : US Nat))
       = .ok (upgraded ⟨2, 18, 2⟩ 5) := by decide
